@@ -352,7 +352,7 @@ fn run_case(case: &Case) -> Result<(Line, Result<(), String>), String> {
 }
 
 pub fn gen(rng: &mut Rng, tier: &str) -> Vec<Line> {
-  let n_cases = if tier == "thorough" { 1500 } else { 40 };
+  let n_cases = if tier == "thorough" { 300 } else { 40 };
   let mut v = Vec::new();
   for k in 0..n_cases {
     let mode = (k % 4) as u64;
